@@ -251,15 +251,42 @@ def part_a(tier, seed):
     s1.listen(2)
     s2 = nfc.llcp.Socket(llc, nfc.llcp.LOGICAL_DATA_LINK)
     s2.bind(33)
-    for d in list(mutations(llcp, rnd, n_rand // 4)):
+    # grammar: parameter values that are legal on the wire but unusual for text handling (names are octet strings)
+    P = pdu_mod
+    odd_names = [b"", b"urn:nfc:sn:caf\xe9", b"\xff\xfe\x00", b"urn:nfc:sn:" + b"x" * 200, b"\x80" * 255, b"urn:nfc:sn:x\x00y"]
+    odd = []
+    for nm in odd_names:
+        odd.append(P.Connect(1, 33, 300, 2, nm))
+        odd.append(P.Connect(16, 33, sn=nm))
+        if len(nm) < 250:
+            odd.append(P.ServiceNameLookup(1, 1, sdreq=[(1, nm)], sdres=[(2, 16)]))
+    odd_frames = []
+    for q in odd:
+        try:
+            odd_frames.append(bytes(P.encode(q)))
+        except Exception:
+            pass
+    dispatched = list(mutations(llcp, rnd, n_rand // 4)) + odd_frames
+    for d in dispatched:
         try:
             p = pdu_mod.decode(d)
         except Exception:
             continue
-        k = ("llc.dispatch",) + outcome(lambda: (llc.dispatch(p), True)[1])
-        cnt[k] += 1
-        samples.setdefault(k, d.hex())
-        outcome(lambda: llc.collect())          # keep the queues drained
+        variants = [p]
+        if p.name not in ("AGF", "SYMM") and len(d) < 120:
+            try:                                   # the same PDU as a member of an aggregated frame
+                variants.append(pdu_mod.decode(bytes(P.encode(P.AggregatedFrame(0, 0, [p, P.ReceiveReady(5, 33, 2)])))))
+            except Exception:
+                pass
+        for q in variants:
+            k = ("llc.dispatch",) + outcome(lambda: (llc.dispatch(q), True)[1])
+            cnt[k] += 1
+            samples.setdefault(k, d.hex())
+            outcome(lambda: llc.collect())          # keep the queues drained
+            # every PDU is rendered by the logging calls of the stack (dispatch() does so for aggregated PDUs at any level)
+            k = ("pdu.str",) + outcome(lambda: str(q))
+            cnt[k] += 1
+            samples.setdefault(k, d.hex())
 
     # NFC-DEP frames at both roles and both framings
     for role in ("I", "T"):
